@@ -99,7 +99,24 @@ def parse_aux(build):
 
 def run_variant(w, sim, proj, variant):
     form, hashseed, noise, existing, shift = variant
-    if not existing:
+    if existing == 'other':
+        # the build directory was last configured with another command line
+        shutil.rmtree(w.build, ignore_errors=True)
+        os.mkdir(w.build)
+        W.stamp(w.build, w.next_tick())
+        saved = list(proj.conf_args)
+        proj.conf_args = [a for a in saved if not a.startswith('--prefix')] \
+            + ['--prefix=' + os.path.join(w.root, 'elsewhere'),
+               '--enable-static']
+        prog0, args0, cwd0 = variant_command('src:abs', w, proj)
+        env0 = R.base_env(w, proj.conf_env)
+        env0.pop('BFG9000', None)
+        if sim.cfg.get('msvc'):
+            env0.update({'CC': 'cl', 'CXX': 'cl'})
+        R.run_bfg(w, args0, env=env0, cwd=cwd0, prog=prog0, mode='fork')
+        proj.conf_args = saved
+        w.advance(3)
+    elif not existing:
         shutil.rmtree(w.build, ignore_errors=True)
         os.mkdir(w.build)
         W.stamp(w.build, w.next_tick())
@@ -153,7 +170,8 @@ def run_case(seed, root, params=None):
         variants.append((
             rng.choice(FORMS),
             rng.choice(['0', '1', '2', str(rng.randrange(1, 2**31))]),
-            noise, rng.random() < 0.25, rng.choice([0, 0, 7, 1000])))
+            noise, rng.choice([False, False, False, True, 'other']),
+            rng.choice([0, 0, 7, 1000])))
     violations, trace, results = [], [], []
     try:
         base = None
@@ -176,7 +194,8 @@ def run_case(seed, root, params=None):
             if v[1] != '0':
                 feats.add('hashseed-differs')
             if v[3]:
-                feats.add('over-existing')
+                feats.add('over-existing' if v[3] is True
+                          else 'over-other-config')
             if not r.ok:
                 violations.append(Violation(
                     PROP, 'configures',
